@@ -297,3 +297,25 @@ Definition create_from_cap (cache : node_cache) (rw ro : option bytes) (deep_imm
    entry's own context would build *)
 Definition cache_ok (cache : node_cache) : Prop :=
   Forall (fun e => exists di s, fst e = memokey di s /\ from_string di s = Ok (snd e) /\ builds_node (snd e) = true) cache.
+
+(* a sequence of calls on one NodeMaker (all nodes kept alive), for the differential run *)
+Fixpoint run_calls (cache : node_cache) (calls : list (option bytes * option bytes * bool)) : list made :=
+  match calls with
+  | [] => []
+  | (rw, ro, di) :: r => let '(m, cache') := create_from_cap cache rw ro di in m :: run_calls cache' r
+  end.
+
+Definition made_eqb (a b : made) : bool :=
+  match a, b with
+  | MNode x, MNode y => cap_eqb x y
+  | MUnknown x, MUnknown y => unode_outcome_eqb x y
+  | MRaises, MRaises => true
+  | _, _ => false
+  end.
+
+Fixpoint made_list_eqb (a b : list made) : bool :=
+  match a, b with
+  | [], [] => true
+  | x :: a', y :: b' => made_eqb x y && made_list_eqb a' b'
+  | _, _ => false
+  end.
